@@ -7,8 +7,10 @@ arithmetic for the pseudo-Boolean side):
 
  builder  every constraint builder that exists in both formula classes
           (add_clause, cardinality_*, add_*_majority/minority, add_parity)
-          x every polarity pattern over <= 4 (5) variables, every threshold
-          from -1 to len+1, plus repeated / opposite literal lists;
+          x every polarity pattern over <= 5 (7) variables and three patterns
+          for every length up to 9, every threshold from -1 to len+1, plus
+          repeated / opposite literal lists, with and without declaring the
+          variables beforehand;
  lib      every family function of cnfgen that takes `formula_class`, called
           once with CNF and once with OPB, over parameter boxes and over all
           labelled (bipartite / directed) graphs up to a size, all option
@@ -56,10 +58,12 @@ RULE = ('pairs (CNF build, pseudo-Boolean build) of the same input: every constr
         'non-trivial when both builds succeed, there is at least one variable and one '
         'constraint; pairs are distinct by construction (each input enumerated once)')
 ASSUMPTIONS = [
-    'bounded scope: <=16 variables per library instance (20 thorough), graphs <=5 vertices '
-    '(6 for some families in thorough), bipartite <=3x3 (3x4,4x3,2x5), bitmap evaluation up to '
-    '18 (22) variables; larger instances (Pitfall) are compared clause by clause, which is '
-    'complete when the pseudo-Boolean side consists of clauses only',
+    'bounded scope: <=16 variables per library instance (20 thorough), all labelled graphs <=5 '
+    'vertices (6 in thorough, with smaller parameters), all bipartite graphs <=3x3 (thorough also '
+    '3x4,4x3,4x4,2x5,5x2,2x6,6x2), all DAGs <=5 (6) vertices, constraint builders on lists of <=5 (7) '
+    'literals exhaustively and <=9 by three patterns; bitmap evaluation up to 18 (22) variables; '
+    'larger instances (Pitfall) are compared clause by clause, which is complete when the '
+    'pseudo-Boolean side consists of clauses only',
     'engine.tt arithmetic evaluation of pseudo-Boolean constraints is the reference meaning of a '
     'constraint (cross-checked against a per-assignment evaluator by engine.tt.selftest)',
     'both builds of a pair start from the same state of the global random generator',
@@ -443,13 +447,19 @@ def _check_tool(case, st, tmp):
             'only %s fails on this command line: %s' % (who, str(E).strip().splitlines()[:2]))
         return out
     pb = _is_pb(B)
+    lib = case.get('lib')
     if not pb:
+        extra = ''
+        if lib is not None:
+            kl, L = _attempt(build_lib, lib, 'OPB', tmp)
+            if kl == 'ok' and _is_pb(L):
+                extra = ('; the library call %s(%s, formula_class=OPB) gives %d constraints, %d of them '
+                         'native cardinality constraints' % (lib['fam'], lib['args'], len(L), _native(L)))
         bad('pbgen:%s:not-OPB-class' % cmd,
             'pbgen ... mode=formula returned a %s object (%d clauses), not a pseudo-Boolean '
-            'formula (cnfgen.formula.baseopb.BaseOPB)' % (type(B).__name__, len(B)))
+            'formula (cnfgen.formula.baseopb.BaseOPB)%s' % (type(B).__name__, len(B), extra))
     for sym, what in compare_pair(A, B, limit, st):
         bad('tool:%s:%s' % (cmd, sym), what)
-    lib = case.get('lib')
     if lib is not None and pb:
         kl, L = _attempt(build_lib, lib, 'OPB', tmp)
         if kl == 'exc':
@@ -487,35 +497,47 @@ def _b(L, Rr, es):
 
 def builder_cases(tier):
     th = tier == 'thorough'
-    kmax = 5 if th else 4
+    kmax = 7 if th else 5
     lists = [[]]
     for k in range(1, kmax + 1):
         lists.extend(scope.polarity_patterns(k))
+    for k in range(kmax + 1, 10):       # longer lists: three polarity patterns each
+        lists += [list(range(1, k + 1)), [-v for v in range(1, k + 1)],
+                  [v if v % 2 else -v for v in range(1, k + 1)]]
     # non contiguous variables, repeated and opposite literals
     lists += [[2], [-3, 1], [4, -2, 1], [1, 1], [1, -1], [1, 2, 1], [1, 2, -1], [-2, -2, 1],
               [1, 1, 1], [2, -1, -2, 1]]
     cs = []
     for lits in lists:
-        nv = max([abs(l) for l in lits] + [0]) + 1     # one unused variable
-        for m in BUILDERS_NOVAL:
-            cs.append({'lvl': 'lib', 'fam': 'builder', 'args': [m, nv, lits, None]})
-        for m in BUILDERS_VAL:
-            for v in range(-1, len(lits) + 2):
-                cs.append({'lvl': 'lib', 'fam': 'builder', 'args': [m, nv, lits, v]})
-        for c in (0, 1):
-            cs.append({'lvl': 'lib', 'fam': 'builder', 'args': ['add_parity', nv, lits, c]})
+        # variables declared beforehand (one of them unused) / discovered by
+        # the builder's own check of the literals
+        for nv in (max([abs(l) for l in lits] + [0]) + 1, 0):
+            for m in BUILDERS_NOVAL:
+                cs.append({'lvl': 'lib', 'fam': 'builder', 'args': [m, nv, lits, None]})
+            for m in BUILDERS_VAL:
+                for v in range(-1, len(lits) + 2):
+                    cs.append({'lvl': 'lib', 'fam': 'builder', 'args': [m, nv, lits, v]})
+            for c in (0, 1):
+                cs.append({'lvl': 'lib', 'fam': 'builder', 'args': ['add_parity', nv, lits, c]})
     return cs
 
 
-def lib_cases(tier, seed):
+def lib_cases(tier, seed, sink=None):
+    """Enumerate the library-level cases.  With `sink` every case is handed to
+    sink(case) instead of being collected (the thorough tier has > 10^6
+    cases; shards re-enumerate and keep their own stripe)."""
     th = tier == 'thorough'
     V = 20 if th else 16
+    lim = 22 if th else 18
     cs = []
+    if sink is None:
+        sink = cs.append
 
     def add(fam, *args, **kw):
         c = {'lvl': 'lib', 'fam': fam, 'args': list(args)}
         c.update(kw)
-        cs.append(c)
+        c['limit'] = 22 if fam == 'pitfall' or c.get('extra') else lim
+        sink(c)
 
     graphs = {n: [_g(n, es) for es in scope.simple_graphs(n)] for n in range(0, 7 if th else 6)}
     dags = graphs                      # edges u<v, same encoding
@@ -530,7 +552,7 @@ def lib_cases(tier, seed):
                         add('php', P, H, f, o)
     sizes = [(L, Rr) for L in range(4) for Rr in range(4)]
     if th:
-        sizes += [(3, 4), (4, 3), (2, 5), (5, 2)]
+        sizes += [(3, 4), (4, 3), (2, 5), (5, 2), (4, 4), (2, 6), (6, 2)]
     bips = {}
     for (L, Rr) in sizes:
         bips[(L, Rr)] = [_b(L, Rr, es) for es in scope.bipartite_graphs(L, Rr)]
@@ -561,10 +583,10 @@ def lib_cases(tier, seed):
                 add('tiling', G)
                 add('ec', G)
     # ---- tseitin: every charge vector on <= 4 vertices
-    for n in range(0, 6):
+    for n in range(0, 7 if th else 6):
         for G in graphs[n]:
             add('tseitin', G, None)
-            if n <= 4 or th:
+            if n <= 4 or (th and n == 5):
                 for ch in itertools.product((0, 1), repeat=n):
                     add('tseitin', G, list(ch))
             else:
@@ -573,14 +595,14 @@ def lib_cases(tier, seed):
             add('tseitin', G, [1])            # shorter (padded) / longer
             add('tseitin', G, [1] * (n + 1))
     # ---- colouring, dominating set
-    for n in range(0, 6):
+    for n in range(0, 7 if th else 6):
         for G in graphs[n]:
             for colors in range(0, 6):
-                if n * colors <= V and (n <= 4 or 1 <= colors <= 2 or th):
+                if n * colors <= V and (n <= 4 or 1 <= colors <= 2 or (th and n == 5)):
                     for f in FT:
                         add('kcolor', G, colors, f)
             for d in range(1, 6):
-                if n + n * d <= V and (n <= 4 or d == 1 or th):
+                if n + n * d <= V and (n <= 4 or d == 1 or (th and n == 5)):
                     for alt in FT:
                         add('domset', G, d, alt)
             add('domset', G, 0, False)        # outside the domain: both must refuse
@@ -601,12 +623,14 @@ def lib_cases(tier, seed):
             nv = comb(size, 2) if s else size * (size - 1)
             if nv <= V:
                 add('op', size, t, s, p, k)
-    for n in range(0, 6):
+    for n in range(0, 7 if th else 6):
         for G in graphs[n]:
             for (t, s, p, k) in flags:
                 nv = comb(n, 2) if s else n * (n - 1)
                 if nv <= (V if th else 12):
                     if n == 5 and not th and (t or k):
+                        continue
+                    if n == 6 and k:
                         continue
                     add('gop', G, t, s, p, k)
     # ---- pebbling / stone
@@ -674,11 +698,13 @@ def lib_cases(tier, seed):
                 if comb(n, 2) + k * n + n * c <= V:
                     add('cliquecol', n, k, c)
     # ---- subgraph family
-    for n in range(0, 6):
+    for n in range(0, 7 if th else 6):
         for G in graphs[n]:
             bits = max(0, (n - 1).bit_length())
             for k in range(0, 5):
                 for sb in FT:
+                    if n == 6 and k > 2:
+                        continue
                     if k * n <= V and (n <= 4 or k <= 3 or th):
                         add('kclique', G, k, sb)
                     if k * bits <= V and (n <= 4 or k <= 3 or th):
@@ -686,7 +712,7 @@ def lib_cases(tier, seed):
                     if 1 + k * n <= V and k <= 3 and (n <= 4 or th):
                         for s in (0, 2):
                             add('ramlb', G, k, s, sb)
-    for n in range(0, 5):
+    for n in range(0, 6 if th else 5):
         for hn in range(0, 5):
             if hn * n <= 16 and (hn <= 3 or th):
                 for G in graphs[n]:
@@ -709,9 +735,6 @@ def lib_cases(tier, seed):
     for i in range(3):
         e = extra[(seed + i) % len(extra)]
         add(e[0], *e[1:], extra=True)
-    lim = 22 if th else 18
-    for c in cs:
-        c['limit'] = 22 if c['fam'] == 'pitfall' or c.get('extra') else lim
     return cs
 
 
@@ -795,6 +818,22 @@ def tool_cases(tier, seed):
         bip += [S('complete', 4, 4), S('complete', 3, 5), S('regular', 4, 4, 3), S('shift', 4, 4, 0, 1, 2),
                 S('glrp', 4, 4, '.5'), S('regular', 4, 4, 2, 'addedges', 1)]
     FT = (False, True)
+    lim = 22 if th else 18
+
+    def order(G):
+        """number of vertices of a simple graph specification (used only to
+        keep the instances below the bitmap limit)"""
+        if G[0] in ('complete', 'empty', 'gnp', 'gnm', 'gnd'):
+            n = int(G[1]) * (int(G[2]) if G[0] == 'complete' and len(G) > 2 and G[2].isdigit() else 1)
+        elif G[0] in ('grid', 'torus'):
+            n = 1
+            for x in G[1:]:
+                if not x.isdigit():
+                    break
+                n *= int(x)
+        else:
+            n = 4
+        return n + (1 if 'splitedges' in G else 0)
 
     # ---- simple formulas
     for P in range(0, 5):
@@ -855,7 +894,8 @@ def tool_cases(tier, seed):
         add('matching', G, ('matching', gl))
         add('tiling', G, ('tiling', gl))
         add('ec', G, ('ec', gl))
-        add('iso', G, ('auto', gl))
+        if order(G) ** 2 <= lim:
+            add('iso', G, ('auto', gl))
         for ch in ('first', 'zero', 'one'):
             add('tseitin', [ch] + G, ('tseitin', gl, ch))
         for ch in ('random', 'randomodd', 'randomeven'):
@@ -869,8 +909,9 @@ def tool_cases(tier, seed):
             for s in (0, 2):
                 add('ramlb', [k, s] + G, ('ramlb', gl, k, s, True))
         for d in range(0, 4):
-            add('domset', [d] + G, ('domset', gl, d, False))
-            add('domset', ['-a', d] + G, ('domset', gl, d, True))
+            if order(G) * (d + 1) <= lim:
+                add('domset', [d] + G, ('domset', gl, d, False))
+                add('domset', ['-a', d] + G, ('domset', gl, d, True))
         for fl in ([], ['--total'], ['--smart'], ['--knuth2'], ['--knuth3']):
             for pl in ([], ['--plant']):
                 t, s = '--total' in fl, '--smart' in fl
@@ -974,11 +1015,11 @@ def shards(tier, seed):
     bc = builder_cases(tier)
     for i, ch in enumerate(scope.stripe(bc, 4)):
         out.append(('b%03d' % i, 'run_cases', ch))
-    lc = lib_cases(tier, seed)
-    for i, ch in enumerate(scope.stripe(lc, 40 if th else 28)):
-        out.append(('l%03d' % i, 'run_cases', ch))
+    k = 48 if th else 24
+    for i in range(k):
+        out.append(('l%03d' % i, 'run_lib_stripe', {'tier': tier, 'seed': seed, 'i': i, 'k': k}))
     tc = tool_cases(tier, seed)
-    for i, ch in enumerate(scope.stripe(tc, 24)):
+    for i, ch in enumerate(scope.stripe(tc, 32)):
         out.append(('t%03d' % i, 'run_cases', ch))
     return out
 
@@ -998,7 +1039,8 @@ def run_registry(args, R):
     R.stats['tool_boxes_for_unregistered_subcommands'] = len([b for b in boxes if b not in both])
     only = sorted(set(reg['cnfgen']) ^ set(reg['pbgen']))
     R.stats['tool_subcommands_in_one_tool_only'] = len(only)
-    fams = {c['fam'] for c in lib_cases(args['tier'], args['seed'])}
+    fams = set()
+    lib_cases(args['tier'], args['seed'], lambda c: fams.add(c['fam']))
     R.stats['lib_families_covered'] = len(fams & set(LIB_FAMILIES))
     # every family function of the package that takes formula_class has a box
     import inspect
@@ -1021,42 +1063,59 @@ def run_registry(args, R):
     R.case(sample={'registered_in_both': both, 'one_tool_only': only}, nontrivial=True)
 
 
+def run_lib_stripe(args, R):
+    """cases number i, i+k, i+2k, ... of the library-level enumeration."""
+    state = {'pos': 0, 'tmp': None}
+    i, k = args['i'], args['k']
+
+    def sink(case):
+        mine = state['pos'] % k == i
+        state['pos'] += 1
+        if mine:
+            _run_one(case, R, state)
+    lib_cases(args['tier'], args['seed'], sink)
+
+
 def run_cases(chunk, R):
-    tmp = None
+    state = {'tmp': None}
     try:
         for case in chunk:
-            st = {}
-            if case['lvl'] == 'tool':
-                if tmp is None:
-                    tmp = tempfile.mkdtemp(prefix='c08_')
-                vs = check_tool(case, st, tmp)
-                name = 'tool:' + case['cmd']
-                R.stats['tool_pairs'] += 1
-                if st.get('libref'):
-                    R.stats['tool_pairs_with_library_reference'] += 1
-            else:
-                vs = check_lib(case, st)
-                name = ('builder:' + case['args'][0]) if case['fam'] == 'builder' else 'lib:' + case['fam']
-                R.stats['builder_pairs' if case['fam'] == 'builder' else 'lib_pairs'] += 1
-            R.case(sample=case if R.evals % 211 == 0 else None, nontrivial=bool(st.get('nontrivial')))
-            R.outcomes[name] += 1
-            if 'rejected' in st:
-                R.stats['both_rejected'] += 1
-                R.outcomes['both-rejected:' + st['rejected']] += 1
-            if 'sat' in st:
-                R.stats['sat_pairs' if st['sat'] else 'unsat_pairs'] += 1
-            R.stats['assignments'] += st.get('assignments', 0)
-            R.stats['native_pb_constraints'] += st.get('native', 0)
-            if st.get('native'):
-                R.stats['pairs_with_native_pb_constraints'] += 1
-            if 'method' in st:
-                R.stats['compared_by:' + st['method']] += 1
-                if st['method'] == 'too-large-not-evaluated':
-                    R.stats['cap_hit'] += 1      # evidence is then not reported as exhaustive
-            R.extend(vs)
+            _run_one(case, R, state)
     finally:
-        if tmp is not None:
-            shutil.rmtree(tmp, ignore_errors=True)
+        if state['tmp'] is not None:
+            shutil.rmtree(state['tmp'], ignore_errors=True)
+
+
+def _run_one(case, R, state):
+    st = {}
+    if case['lvl'] == 'tool':
+        if state['tmp'] is None:
+            state['tmp'] = tempfile.mkdtemp(prefix='c08_')
+        vs = check_tool(case, st, state['tmp'])
+        name = 'tool:' + case['cmd']
+        R.stats['tool_pairs'] += 1
+        if st.get('libref'):
+            R.stats['tool_pairs_with_library_reference'] += 1
+    else:
+        vs = check_lib(case, st)
+        name = ('builder:' + case['args'][0]) if case['fam'] == 'builder' else 'lib:' + case['fam']
+        R.stats['builder_pairs' if case['fam'] == 'builder' else 'lib_pairs'] += 1
+    R.case(sample=case if R.evals % 211 == 0 else None, nontrivial=bool(st.get('nontrivial')))
+    R.outcomes[name] += 1
+    if 'rejected' in st:
+        R.stats['both_rejected'] += 1
+        R.outcomes['both-rejected:' + st['rejected']] += 1
+    if 'sat' in st:
+        R.stats['sat_pairs' if st['sat'] else 'unsat_pairs'] += 1
+    R.stats['assignments'] += st.get('assignments', 0)
+    R.stats['native_pb_constraints'] += st.get('native', 0)
+    if st.get('native'):
+        R.stats['pairs_with_native_pb_constraints'] += 1
+    if 'method' in st:
+        R.stats['compared_by:' + st['method']] += 1
+        if st['method'] == 'too-large-not-evaluated':
+            R.stats['cap_hit'] += 1      # evidence is then not reported as exhaustive
+    R.extend(vs)
 
 
 ENGINE = 'tt+scope+cli'
@@ -1064,7 +1123,7 @@ TECHNIQUE = ('bounded exhaustive differential exploration: every input of a smal
              '(CNF class / cnfgen tool vs OPB class / pbgen tool) and the two results are compared on '
              'variable count, names and all 2^n assignments')
 LEVEL_TEXT = ('Every constraint builder, every family function taking formula_class (all parameter '
-              'tuples of a box, all labelled graphs up to 5 vertices, all flags) and every sub-command '
+              'tuples of a box, all labelled graphs up to 5 (6) vertices, all flags) and every sub-command '
               'registered by both tools (hand-written argument boxes) is built as CNF and as '
               'pseudo-Boolean formula; the two model sets are compared on all 2^n assignments '
               '(clauses bit-parallel, pseudo-Boolean constraints by bit-sliced arithmetic). The pbgen '
